@@ -1,3 +1,5 @@
+import operator
+
 from .base_array import base_array
 from .composite import struct, union
 from .exception import ProphyError
@@ -15,6 +17,12 @@ def decode_scalar_array(tp, data, pos, endianness, count):
         cursor += size
         values.append(value)
     return values, cursor
+
+
+def _plain_bounds(start, stop, length):
+    """ The bounds of a slice as plain numbers: an index object is asked once, what is checked is what is assigned. """
+    start, stop, _ = slice(start, stop).indices(length)
+    return start, stop
 
 
 def _checked_list(tp, values):
@@ -61,6 +69,7 @@ class fixed_scalar_array(base_array):
 
     def __setslice__(self, start, stop, values):
         values = _checked_list(self._TYPE, values)
+        start, stop = _plain_bounds(start, stop, len(self._values))
         if len(self._values[start:stop]) != len(values):
             raise ProphyError("setting slice with different length collection")
         self._values[start:stop] = values
@@ -90,11 +99,12 @@ class bound_scalar_array(base_array):
 
     def insert(self, idx, value):
         value = self._TYPE._check(value)
-        if self._max_len and len(self) == self._max_len:
+        """ an index object is asked for its number once, before the limit is looked at """
+        idx = operator.index(idx)
+        if self._max_len and len(self) >= self._max_len:
             raise ProphyError("exceeded array limit")
-        if isinstance(idx, int):
-            """ as a list does for any index beyond its ends (list.insert itself refuses integers beyond the machine word) """
-            idx = max(-len(self) - 1, min(len(self), idx))
+        """ as a list does for any index beyond its ends (list.insert itself refuses integers beyond the machine word) """
+        idx = max(-len(self) - 1, min(len(self), idx))
         self._values.insert(idx, value)
 
     def extend(self, values):
@@ -117,6 +127,7 @@ class bound_scalar_array(base_array):
 
     def __setslice__(self, start, stop, values):
         values = _checked_list(self._TYPE, values)
+        start, stop = _plain_bounds(start, stop, len(self._values))
         if self._max_len and len(self) + len(values) - len(self._values[start:stop]) > self._max_len:
             raise ProphyError("exceeded array limit")
         self._values[start:stop] = values
